@@ -40,7 +40,8 @@ pub struct AnalysisDiag {
 
 /// Cyclic definitions among locals / inputs make the analyzer's nine resolution passes nest
 /// their symbols geometrically. Returns the largest number of references (with multiplicity)
-/// that a definition on a cycle makes to definitions of its own cycle.
+/// that a definition on a cycle makes to definitions of its own cycle (three references count as four when
+/// the definitions on the cycle are large: what matters is fanout^10 x size).
 pub fn cyclic_reference_fanout(ast: &tx3_lang::ast::Program) -> usize {
     fn idents(v: &serde_json::Value, out: &mut Vec<String>) {
         match v {
@@ -61,26 +62,37 @@ pub fn cyclic_reference_fanout(ast: &tx3_lang::ast::Program) -> usize {
     }
     let mut worst = 0;
     for tx in &ast.txs {
-        let mut defs: Vec<(String, Vec<String>)> = vec![];
+        // (name, identifiers mentioned, size of the serialised definition)
+        let mut defs: Vec<(String, Vec<String>, usize)> = vec![];
         if let Some(l) = &tx.locals {
             for a in &l.assigns {
                 let mut ids = vec![];
-                idents(&serde_json::to_value(&a.value).unwrap_or_default(), &mut ids);
-                defs.push((a.name.value.clone(), ids));
+                let v = serde_json::to_value(&a.value).unwrap_or_default();
+                idents(&v, &mut ids);
+                defs.push((a.name.value.clone(), ids, v.to_string().len()));
             }
         }
         for i in &tx.inputs {
             let mut ids = vec![];
-            idents(&serde_json::to_value(&i.fields).unwrap_or_default(), &mut ids);
-            defs.push((i.name.clone(), ids));
+            let v = serde_json::to_value(&i.fields).unwrap_or_default();
+            idents(&v, &mut ids);
+            defs.push((i.name.clone(), ids, v.to_string().len()));
         }
-        let names: Vec<String> = defs.iter().map(|d| d.0.clone()).collect();
+        // The scope is filled in this order: locals, inputs, named outputs, a later entry replacing an earlier
+        // one of the same name; an output's symbol is an index, which carries no copy of a definition.
+        let shadowed: Vec<String> = tx.outputs.iter().filter_map(|o| o.name.as_ref().map(|n| n.value.clone())).collect();
         let n = defs.len();
+        let target = |id: &str| -> Option<usize> {
+            if shadowed.iter().any(|s| s == id) {
+                return None;
+            }
+            (0..n).rev().find(|j| defs[*j].0 == id)
+        };
         // reachability (n is tiny)
         let mut reach = vec![vec![false; n]; n];
-        for (i, (_, ids)) in defs.iter().enumerate() {
+        for (i, (_, ids, _)) in defs.iter().enumerate() {
             for id in ids {
-                if let Some(j) = names.iter().position(|x| x == id) {
+                if let Some(j) = target(id) {
                     reach[i][j] = true;
                 }
             }
@@ -95,15 +107,15 @@ pub fn cyclic_reference_fanout(ast: &tx3_lang::ast::Program) -> usize {
             }
         }
         for i in 0..n {
-            if !reach[i][i] {
+            if !reach[i][i] || target(&defs[i].0) != Some(i) {
                 continue;
             }
             // references from i to members of its own cycle
-            let fan = defs[i]
-                .1
-                .iter()
-                .filter(|id| names.iter().position(|x| x == *id).map(|j| reach[j][i] && reach[i][j]).unwrap_or(false))
-                .count();
+            let fan = defs[i].1.iter().filter(|id| target(id).map(|j| reach[j][i] && reach[i][j]).unwrap_or(false)).count();
+            // what the analyzer ends up holding is about fan^10 copies of the definitions on the cycle
+            let size: usize = (0..n).filter(|j| reach[*j][i] && reach[i][*j]).map(|j| defs[j].2).sum();
+            let copies = (fan as f64).powi(10) * size as f64;
+            let fan = if fan == 3 && copies > 2.0e8 { 4 } else { fan };
             worst = worst.max(fan);
         }
     }
